@@ -7,6 +7,7 @@ mod c04;
 mod c10;
 mod c11;
 mod c12;
+mod c18;
 mod olpc;
 mod c20;
 mod common;
@@ -37,6 +38,7 @@ fn dispatch(st: &mut State, scn: &Value) -> Value {
             st.verify.get_or_insert_with(|| verify::Ctx::new(&common::family(), &prop)).run(scn, ev, pin)
         }
         "C20" => c20::run(scn),
+        "C18" => c18::run(scn),
         "WIRE" => match scn["kind"].as_str().unwrap_or("") {
             "rule" => wire::run_rule(scn),
             "pred" => wire::run_pred(scn),
